@@ -21,6 +21,7 @@ pub mod c04;
 pub mod c05;
 pub mod c09;
 pub mod c11;
+pub mod c12;
 pub mod c14;
 pub mod c18;
 pub mod selftest;
